@@ -72,12 +72,67 @@ func checkC09(c *Check) {
 
 	// ---- R1 every leaf matcher's verdict implies the header matcher
 	c.Rule("R1", "E1 value implication + E6 siblings", "every leaf matcher (methods of Leaf implementations taking an http.Header and returning bool) returns true only if the leaf's header matcher accepted the method's own header parameter", 5)
+	// gate functions: module functions g(m *HeaderMatcher, h http.Header) bool (any parameter order) whose
+	// true verdict implies m == nil or m.Match(h) — the canonical gate in another shape
+	type gateFn struct {
+		fn     *ssa.Function
+		mi, hi int
+	}
+	var gates []gateFn
+	for _, fn := range p.Funcs() {
+		if fn.Pkg != p.SSA["route"] || fn.Parent() != nil || fn == mMH || len(fn.Blocks) == 0 {
+			continue
+		}
+		res := fn.Signature.Results()
+		if res.Len() != 1 || !types.Identical(res.At(0).Type(), types.Typ[types.Bool]) {
+			continue
+		}
+		mi, hi := -1, headerParam(fn)
+		for i, prm := range fn.Params {
+			if namedName(derefT(prm.Type())) == "HeaderMatcher" && fn.Signature.Recv() == nil {
+				mi = i
+			}
+		}
+		if mi < 0 || hi < 0 {
+			continue
+		}
+		gm := vCall("(*route.HeaderMatcher).Match", vParam(fn, mi), vParam(fn, hi))
+		ge := union(edgesWhere(fn, cBool(gm), true), edgesWhere(fn, cCmp(token.EQL, vParam(fn, mi), vNil), true))
+		okAll, n := true, 0
+		allInstrs(fn, func(in ssa.Instruction) {
+			if r, ok := in.(*ssa.Return); ok && len(r.Results) == 1 {
+				n++
+				if ok2, _ := boolImplies(fn, r.Results[0], r.Block(), gm, ge); !ok2 {
+					okAll = false
+				}
+			}
+		})
+		if okAll && n > 0 {
+			gates = append(gates, gateFn{fn, mi, hi})
+			p.roleNotes = append(p.roleNotes, "function "+p.FuncKey(fn)+" is a header gate (true ⇒ matcher == nil or matcher.Match(header))")
+		}
+	}
 	guardFor := func(fn *ssa.Function) (VM, EdgeSet) {
 		hp := vParam(fn, headerParam(fn))
 		isHMField := func(v ssa.Value) bool { return fieldOf(addrOfLoad(strip(v))) == fHM }
+		viaGate := func(v ssa.Value) bool {
+			cl := asCall(v)
+			if cl == nil {
+				return false
+			}
+			sc := cl.Call.StaticCallee()
+			for _, gt := range gates {
+				if sc == gt.fn {
+					as := cl.Call.Args
+					return gt.mi < len(as) && gt.hi < len(as) && isHMField(as[gt.mi]) && hp(as[gt.hi])
+				}
+			}
+			return false
+		}
 		g := vOr(
 			vCall("(*route.baseLeaf).matchHeader", vAny, hp),
 			vCall("(*route.HeaderMatcher).Match", isHMField, hp),
+			viaGate,
 		)
 		edges := union(
 			edgesWhere(fn, cBool(g), true),
@@ -88,6 +143,9 @@ func checkC09(c *Check) {
 	sites := leafMatchers(p)
 	if mMH != nil {
 		sites = append(sites, mMH)
+	} else if len(gates) > 0 {
+		// the gate lives in a function of another shape, verified above
+		c.OK(p.FuncKey(gates[0].fn)+":verdict", p.FuncPos(gates[0].fn), "true verdict ⇒ matcher == nil or matcher.Match(header) on every return", numInstrs(gates[0].fn))
 	}
 	for _, fn := range sites {
 		g, edges := guardFor(fn)
@@ -545,4 +603,28 @@ func passThrough(c *Check, isT func(types.Type) bool, what string, origin func(f
 		})
 	}
 	return n
+}
+
+// headerRejectEdges: the false edges of every bool-valued call that is given the function's own
+// http.Header parameter (matchHeader, HeaderMatcher.Match, or a gate of another shape): leaving
+// through one of them is a rejection for header reasons (what the gate decides is C09's business).
+func headerRejectEdges(fn *ssa.Function) EdgeSet {
+	out := EdgeSet{}
+	hi := headerParam(fn)
+	if hi < 0 {
+		return out
+	}
+	hp := vParam(fn, hi)
+	allInstrs(fn, func(in ssa.Instruction) {
+		cl, ok := in.(*ssa.Call)
+		if !ok || !types.Identical(cl.Type(), types.Typ[types.Bool]) {
+			return
+		}
+		for _, a := range callArgs(&cl.Call) {
+			if hp(a) {
+				out.addAll(edgesWhere(fn, cBool(vIs(cl)), false))
+			}
+		}
+	})
+	return out
 }
